@@ -16,7 +16,7 @@ func init() {
 		Title: "Failed parses leave receiver and input untouched; string and bytes agree",
 		Run:   runC17,
 		Explanation: "C17.store: in each of the 8 pointer-receiver Unmarshal*/Scan methods no store into receiver-derived memory (direct, field-wise or through an in-repo callee that writes its receiver) can reach a return whose error operand is not the nil constant (CFG reachability over SSA). " +
-			"C17.ro: alias analysis from every parser entry point: no element store, copy or append targets memory that may alias the input (conversions of the type parameter, sub-slices, FindSubmatch results); stdlib callees receiving an alias must be in the read-only summary table. " +
+			"C17.ro: alias analysis from every parser entry point: no element store, copy or append targets memory that may alias the input (conversions of the type parameter, sub-slices, FindSubmatch results); stdlib callees receiving an alias must be in the read-only summary table; a slice sharing the input's bytes is not stored where it outlives the call. C17.errinput: the methods of the typed parse errors, which keep the input in their Input field, do not write through an alias of it either (Error() formats a caller's []byte). " +
 			"C17.alias: result types contain no reference into the input (Date, Number, Size, ID have no pointer/slice/string fields; Ver's strings are produced by copying string(...) conversions); no unsafe in the value packages. " +
 			"C17.generic: one generic body per parser, in which no type switch/assertion/reflect inspects a T-typed value, and every fmt verb applied to a T-typed value prints string and []byte identically.",
 		NotDecided:  []string{"error *types* differ by instantiation by design (ParseError[string] vs ParseError[[]byte]); only values and messages are claimed"},
@@ -52,6 +52,35 @@ func runC17(e *Env) {
 	e.Flow(func(c *flow.Ctx) { c.RuleInputReadOnly(entries...) })
 	e.S.Floor("C17.ro", 11)
 
+	// the typed parse errors keep the input (field Input): formatting the error must not write into it either
+	var errMethods []*ssa.Function
+	for _, pkg := range ValuePkgs {
+		sp := e.P.ByName[pkg]
+		tn := parseErrorType[pkg]
+		if sp == nil || tn == "" || sp.Type(tn) == nil {
+			continue
+		}
+		for _, m := range flow.SortedFuncs(e.C.AllRepoFuncs()) {
+			if m.Signature.Recv() == nil || m.Pkg != sp || flow.Origin(m) != m {
+				continue
+			}
+			rt := m.Signature.Recv().Type()
+			if p, ok := rt.(*types.Pointer); ok {
+				rt = p.Elem()
+			}
+			if nt, ok := rt.(*types.Named); ok && nt.Obj().Name() == tn && len(m.Blocks) > 0 {
+				errMethods = append(errMethods, m)
+			}
+		}
+	}
+	n0 := len(e.S.Obs)
+	e.Flow(func(c *flow.Ctx) { c.RuleFieldReadOnly("Input", errMethods...) })
+	for i := n0; i < len(e.S.Obs); i++ {
+		if e.S.Obs[i].Rule == "C17.ro" {
+			e.S.Obs[i].Rule = "C17.errinput"
+		}
+	}
+	e.S.Floor("C17.errinput", 5)
 	ruleAliasFree(e, "C17.alias", false)
 	ruleGeneric(e, entries)
 }
